@@ -7,13 +7,14 @@ HDR_STUBS = ["extend_raw_data: in-place stub on a typed static header slot (movi
 RN = {"lib/lha_file_header.c": ["extend_raw_data"]}
 
 
-def l01(smax, mode="functional", timeout=600, tier="both", rawend=False):
+def l01(smax, mode="functional", timeout=600, tier="both", rawend=False, oom=False):
     # no_shift_check: decode_ftime shifts a negative int left for DOS years >= 2044 (UB-NOTE, not a memory access; DESIGN.md section 5)
-    return dict(name="l01.s%d%s%s" % (smax, ".rawend" if rawend else "", ".safe" if mode == "safety" else ""), src="hdr/l01.c", defines=["S_MAX=%d" % smax] + (["RAW_END_ALIGNED"] if rawend else []), rename_defs=RN, no_shift_check=True,
+    return dict(name="l01.s%d%s%s%s" % (smax, ".rawend" if rawend else "", ".oom" if oom else "", ".safe" if mode == "safety" else ""), src="hdr/l01.c",
+                defines=["S_MAX=%d" % smax] + (["RAW_END_ALIGNED"] if rawend else []) + (["ALLOC_MAY_FAIL"] if oom else []), rename_defs=RN, no_shift_check=True,
                 extra_srcs=HDR_X, mode=mode, unwind=smax + 2, units=HDR_UNITS + ["decode_level0_header", "process_level0_path", "process_level0_extended_area", "decode_ftime", "check_l0_checksum"],
                 timeout=timeout, mem_gb=8, tier=tier, stubs=HDR_STUBS,
                 bounds="arbitrary input of 0..%d bytes, level byte 0 or 1 (all other bytes, lengths, checksum symbolic)" % smax
-                       + ("; raw header placed so that its declared end is the end of its object (reads past the header's own bytes are out of bounds)" if rawend else ""))
+                       + ("; every string allocation may fail" if oom else "") + ("; raw header placed so that its declared end is the end of its object (reads past the header's own bytes are out of bounds)" if rawend else ""))
 
 
 EXT_TYPES = [(0x00, 5), (0x01, 6), (0x02, 6), (0x41, 26), (0x50, 5), (0x51, 7), (0x52, 5), (0x53, 5), (0x54, 7), (0xcc, 14)]
